@@ -45,6 +45,9 @@ TEMPLATES = (
     ({"cls": "RSI", "kw": {"period": 3}}, {"cls": "RSI", "kw": {"period": 3, "input_value": "open", "name_suffix": "open"}}),
     ({"cls": "MACD", "kw": {"fast_period": 2, "slow_period": 3, "signal_period": 2}}, {"cls": "MACD", "kw": {"fast_period": 2, "slow_period": 3, "signal_period": 2, "input_value": "low", "name_suffix": "EMA"}}),
     ({"cls": "ATR", "kw": {"period": 3}}, {"cls": "SMA", "kw": {"period": 3, "fullname_override": "ATR_3_x"}}),
+    ({"cls": "KC", "kw": {"period": 3, "multiplier": 2.0}}, {"cls": "KC", "kw": {"period": 3, "multiplier": 3.0, "input_value": "high"}}),
+    ({"cls": "Supertrend", "kw": {"period": 3, "multiplier": 2.0}}, {"cls": "Supertrend", "kw": {"period": 3, "multiplier": 3.0, "name_suffix": "wide"}}),
+    ({"cls": "StandardDeviationThreshold", "kw": {"period": 3, "multiplier": 1.0}}, {"cls": "StandardDeviationThreshold", "kw": {"period": 3, "multiplier": 2.0, "input_value": "high", "name_suffix": "h"}}),
 )
 OPS = ("purge", "recalculate", "remove", "calculate", "append", "purge", "recalculate")
 
@@ -75,6 +78,8 @@ def cases(draw, max_n=45):
     for m in members:
         if own and draw(st.integers(0, 2)) > 0:
             m["kw"]["timeframe"] = own if draw(st.integers(0, 3)) else draw(st.sampled_from(("T10", "T15")))
+            if draw(st.integers(0, 3)) == 0:
+                m["kw"]["timeframe"] = m["kw"]["timeframe"].lower()  # the same timeframe in lower case
             if draw(st.integers(0, 2)) == 0:
                 m["kw"]["timeframe_fill"] = True
     step = draw(st.sampled_from((60, 150, 300))) if (tf or own) else 60
